@@ -11,7 +11,14 @@ package base
 //             must never exceed what was recorded with timestamps inside the window, no amount may show up in a
 //             bucket other than the one its timestamp selects, and every call returns
 //
-// Bounded: VERIF_BOUND rounds x 8 goroutines x 2000 records; schedules are whatever the runtime produces.
+//   slots     16 goroutines, each recording only into its own slot of a 16-slot array and jumping a whole cycle ahead
+//             every time, so that every call rolls over a DIFFERENT slot while the others do the same: the single
+//             update lock is contended by rollovers of unrelated slots; every call must return (a recorder that
+//             waits for "its" slot to be refreshed by whoever holds the lock waits for ever) and right after its
+//             call each recorder finds exactly its own amount in its slot
+//
+// Bounded: VERIF_BOUND rounds x 8 goroutines x 2000 records (+ VERIF_BOUND x 50 rollovers x 16 goroutines);
+// schedules are whatever the runtime produces.
 
 import (
 	"fmt"
@@ -112,6 +119,47 @@ func TestVerifBounded(t *testing.T) {
 				}
 			}
 		}
+	}
+	// ---- slots: concurrent rollovers of different slots
+	{
+		const S = 16
+		bla := NewBucketLeapArray(S, uint32(S)*uint32(L))
+		t0 := (util.CurrentTimeMillis()/1000 + 2) * 1000
+		t0 -= t0 % (S * L)
+		var wg sync.WaitGroup
+		var stuck int64
+		finished := make(chan struct{})
+		var mu sync.Mutex
+		for g := 0; g < S; g++ {
+			wg.Add(1)
+			go func(g int) {
+				defer wg.Done()
+				for i := 0; i < rounds*50; i++ {
+					ts := t0 + uint64(i)*S*L + uint64(g)*L + uint64(i%int(L))
+					bla.addCountWithTime(ts, base.MetricEventPass, int64(g+1))
+					w, err := bla.data.currentBucketOfTime(ts, bla)
+					if err != nil || w == nil {
+						continue
+					}
+					if got := w.Value.Load().(*MetricBucket).Get(base.MetricEventPass); w.BucketStart == ts-ts%L && got != int64(g+1) {
+						mu.Lock()
+						fail("check=slots-own-amount goroutine=%d rollover=%d: the slot holds %d right after recording %d into a freshly rolled bucket nobody else writes", g, i, got, g+1)
+						mu.Unlock()
+					}
+				}
+			}(g)
+		}
+		go func() { wg.Wait(); close(finished) }()
+		cases++
+		select {
+		case <-finished:
+		case <-time.After(30 * time.Second):
+			stuck = 1
+			fmt.Println("BOUNDED-FAIL check=slots-termination: recorders rolling over different slots of one array did not all return within 30 s")
+			fmt.Printf("BOUNDED cases=%d failures=%d result=fail\n", cases, bad+1)
+			os.Exit(1)
+		}
+		_ = stuck
 	}
 	close(done)
 	res := "ok"
